@@ -259,6 +259,10 @@ class Pipeline(object):
     @asyncio.coroutine
     def _run_producer_wrapper(self):
         '''Run the producer, if exception, stop engine.'''
+        if self._state != PipelineState.running:
+            # Stop was requested before the producer got to run
+            return
+
         try:
             yield from self._producer.process()
         except Exception as error:
